@@ -127,6 +127,12 @@ fn run(case: &Case09, with_upgrades: bool, sliced: bool, out: &mut Outcome) -> O
         record(hw, r);
         true
     };
+    // Fee percentiles after an upgrade: the per-block fee rates are not serialised, so the first
+    // answer for every later tip is recomputed from the blocks themselves and must still be the
+    // nearest-rank percentiles of the model's rates (oracle shared with C15). Observed in the
+    // runs with upgrades once the first upgrade has happened, after every heartbeat that left no
+    // ingestion paused; the stored answer is masked in the twin comparison.
+    let mut obs = super::c15::Obs::new();
     for (i, ev) in sc.evs.iter().enumerate() {
         match ev {
             Ev::Mine(_) | Ev::Plan(_) => {}
@@ -135,12 +141,20 @@ fn run(case: &Case09, with_upgrades: bool, sliced: bool, out: &mut Outcome) -> O
                 if !beat(&mut hw, *b, i, out, &mut r, &mut expect_initial) {
                     return None;
                 }
+                if r.upgrades > 0 && !sut::is_ingesting() {
+                    out.class("fee_percentiles_observed_after_upgrade");
+                    super::c15::observe(&mut hw.w, i, &mut obs, out, true);
+                }
             }
             Ev::Upgrade => {
                 if !with_upgrades {
                     continue;
                 }
                 // observe the fee percentiles so that there is a stored answer the upgrade could lose
+                // (through C15's oracle: a first answer for a tip is also compared with the model)
+                if !sut::is_ingesting() {
+                    super::c15::observe(&mut hw.w, i, &mut obs, out, false);
+                }
                 let fees_before = sut::fee_percentiles(hw.w.cfg.net);
                 let before = snapshot::take(&hw.w);
                 let (partial, paused) = can::with_state(|s| (s.syncing_state.response_to_process.is_some(), s.utxos.ingesting_block.is_some()));
@@ -186,6 +200,10 @@ fn run(case: &Case09, with_upgrades: bool, sliced: bool, out: &mut Outcome) -> O
                     }
                 }
                 let fees_after = sut::fee_percentiles(hw.w.cfg.net);
+                if let Ok(v) = &fees_after {
+                    let tip = *hw.w.model.best_chain().last().unwrap();
+                    obs.note(tip, v.clone());
+                }
                 if fees_before != fees_after {
                     out.fail(format!(
                         "event {i}: get_current_fee_percentiles answered {:?} values before the upgrade and {:?} after it although the tip did not change",
@@ -216,6 +234,10 @@ fn run(case: &Case09, with_upgrades: bool, sliced: bool, out: &mut Outcome) -> O
             return None;
         }
         let after = (sut::tree_hashes(), sut::is_ingesting());
+        if r.upgrades > 0 && !after.1 {
+            out.class("fee_percentiles_observed_after_upgrade");
+            super::c15::observe(&mut hw.w, 100_000 + n, &mut obs, out, true);
+        }
         if before == after && !after.1 && hw.fully_synced() {
             quiet += 1;
         } else {
@@ -316,10 +338,13 @@ impl Property for C09 {
         serde_json::json!({"final_arg": format!("{:?}", case.final_arg), "scenario": scenario_brief(&case.scenario)})
     }
     fn required_classes(&self, _tier: Tier) -> Vec<&'static str> {
-        vec!["upgrade_with_stored_response", "upgrade_while_ingestion_paused", "upgrade_on_forked_tree", "upgrade_with_argument", "twin_sequences_compared", "upgrade_with_stored_fee_percentiles"]
+        vec!["upgrade_with_stored_response", "upgrade_while_ingestion_paused", "upgrade_on_forked_tree", "upgrade_with_argument", "twin_sequences_compared", "upgrade_with_stored_fee_percentiles", "fee_percentiles_observed_after_upgrade"]
     }
     fn max_shrink_iters(&self) -> u32 {
         250
+    }
+    fn fuzz_sequences(&self) -> Vec<(&'static str, usize)> {
+        vec![("/scenario/evs", 64)]
     }
     fn run(&self, case: &Case09) -> Outcome {
         let mut out = Outcome::default();
